@@ -298,7 +298,7 @@ class Polynomial(Expression):
 
     def as_primitives(self):
         deps = _get_dependencies(self)
-        context = {dep: dep for dep in deps}
+        context = {dep.name: dep for dep in deps}
         return pymbolic.evaluate(self, context)
 
     def get_coefficient(self, sought_exp):
